@@ -400,6 +400,7 @@ pub fn run(ck: &mut Check) {
     for cls in ["mut_content_covered", "mut_content_uncovered", "mut_reference_covered", "mut_reference_uncovered", "std_alphabet_version", "urlsafe_version"] {
         ck.floor("hashes_and_mutations", cls, 1000);
     }
+    ck.floor("hashes_and_mutations", "stored_hash_after_hash_and_sign", 10_000);
     ck.floor("size_limit_boundary", "over_limit", 50);
     ck.floor("size_limit_boundary", "within_limit", 50);
 }
